@@ -70,6 +70,34 @@ func (s *Store) SavePeerState(peer *Peer) error {
 	})
 }
 
+// MarkPeerPolled records that the peer was polled at the given time. Only the
+// poll timestamp of the stored record is changed, inside one write
+// transaction, so a capability stored concurrently by the message handler is
+// never overwritten with an older copy. A peer without a record is left alone.
+func (s *Store) MarkPeerPolled(id PeerID, at time.Time) error {
+	return s.db.Update(func(tx *bolt.Tx) error {
+		bucket := tx.Bucket(pollBucketName)
+		if bucket == nil {
+			return errPollBucketMissing
+		}
+		key := []byte(id.String())
+		raw := bucket.Get(key)
+		if raw == nil {
+			return nil
+		}
+		var record peerRecord
+		if err := json.Unmarshal(raw, &record); err != nil {
+			return fmt.Errorf("decode peer %s: %w", id.String(), err)
+		}
+		record.LastPollAt = at
+		data, err := json.Marshal(&record)
+		if err != nil {
+			return fmt.Errorf("marshal peer %s: %w", id.String(), err)
+		}
+		return bucket.Put(key, data)
+	})
+}
+
 // GetPeerState retrieves the stored state for a peer.
 func (s *Store) GetPeerState(id PeerID) (*Peer, error) {
 	var record peerRecord
